@@ -11,7 +11,9 @@ res = {}
 try:
     for p in props:
         t = time.time()
-        r = subprocess.run(['./check', p], cwd='/verif', capture_output=True, text=True)
+        # evidence of runs on a deliberately broken tree must not replace the committed evidence of the real tree
+        r = subprocess.run(['./check', p], cwd='/verif', capture_output=True, text=True,
+                           env=dict(os.environ, VERIF_EVIDENCE_DIR='/verif/build/seed-evidence'))
         lines = [l for l in r.stdout.split('\n') if l.startswith(('VIOLATION', 'UNDECIDED', 'OK', 'KNOWN', 'DEGRADED'))]
         res[p] = dict(rc=r.returncode, lines=lines[:4], wall=round(time.time() - t, 1))
         print(p, 'rc=%d' % r.returncode, '%.0fs' % (time.time() - t), ' | '.join(lines[:3])[:300])
